@@ -1086,7 +1086,7 @@ pub fn oracle_c06_c07(w: &World, so: &StepObs, out: &mut StepOut, do6: bool, do7
                 let swap_input_branch = partial_path && partial_out > pp.notional.u128();
                 let spot_pnl = pnl_of(pp, p0.out_spot);
                 let refine = match cls.as_str() {
-                    "overflow-sub" if cfg.plr != 0 && r < 0 => "partial-path-negative-ratio",
+                    "overflow-sub" if cfg.plr != 0 && r < 0 && partial_path && (spot_pnl.abs() * cfg.plr as i128 / di() + partial_penalty > pp.margin.u128() as i128 || swap_input_branch) => "partial-path-negative-ratio",
                     "overflow-sub" if swap_input_branch => "partial-path-slice-worth-more-than-open-notional",
                     "overflow-sub" if partial_path && spot_pnl.abs() * cfg.plr as i128 / di() + partial_penalty > pp.margin.u128() as i128 => "partial-path-spot-pnl-share-plus-penalty-exceeds-margin",
                     "response-parse" if cfg.real_feed => "real-price-feed",
